@@ -570,3 +570,20 @@ mod node_tests {
 mod node_render_tests;
 #[cfg(test)]
 mod node_render_tests_ignore_class_notfound_regexp;
+
+#[cfg(reclass_rs_verif)]
+impl Node {
+    /// Verification hook: `abs_class_name` for a node located at `loc`.
+    pub fn verif_abs_class_name(loc: Option<PathBuf>, class: &str) -> Result<String> {
+        let n = Node {
+            own_loc: loc,
+            ..Default::default()
+        };
+        n.abs_class_name(class)
+    }
+}
+
+#[cfg(reclass_rs_verif)]
+pub mod verif_reexports {
+    pub use super::nodeinfo::{NodeInfo, NodeInfoMeta};
+}
